@@ -226,3 +226,11 @@ pub fn vbpe(n: usize) -> Result<Vocab> {
         canonical: true,
     })
 }
+
+/// BPE words under a non-canonical greedy env (masks are never narrowed by forcing)
+pub fn vbpe_noncanon(n: usize) -> Result<Vocab> {
+    let b = vbpe(n)?;
+    let mut v = Vocab::from_words(&format!("Vbpe{n}nc"), b.words.clone(), b.eos, false);
+    v.specials = b.specials.clone();
+    Ok(v)
+}
